@@ -2666,7 +2666,7 @@ impl Formatter {
         <span class=\"mech-right-paren\">)</span>
       </span>", name, value)
     } else {
-      format!("{}{}", name, value)
+      format!(":{}({})", name, value)
     }
   }
 
